@@ -114,10 +114,15 @@ InFileOK(base, mk, pm) ==
 RECURSIVE InPermsRec(_, _, _, _)
 InPermsRec(F, base, mk, k) == IF k = 0 THEN {<<>>}
                               ELSE {Append(g, pm) : g \in InPermsRec(F, base, mk, k - 1), pm \in {q \in PermsOf(ToSet(F.files[k].defs)) : InFileOK(base, mk, q)}}
+\* the order of the files only matters for pairs that sit in different files
+FileOf(F, d) == CHOOSE f \in DOMAIN F.files : \E q \in DOMAIN F.files[f].defs : F.files[f].defs[q] = d
+FileOrderOK(F, base, mk, fo) == \A pr \in mk : LET f1 == FileOf(F, base[pr[1]])  f2 == FileOf(F, base[pr[2]]) IN f1 # f2 => IdxOf(fo, f1) < IdxOf(fo, f2)
 PresentationsK(F, base, mk) ==
-  {fs \in {[k \in DOMAIN fo |-> [syn |-> F.files[fo[k]].syn, src |-> fo[k], defs |-> g[fo[k]]]] : fo \in PermsOf(DOMAIN F.files), g \in InPermsRec(F, base, mk, Len(F.files))} :
-      AdmissibleK(base, mk, fs)}
+  {[k \in DOMAIN fo |-> [syn |-> F.files[fo[k]].syn, src |-> fo[k], defs |-> g[fo[k]]]] :
+      fo \in {q \in PermsOf(DOMAIN F.files) : FileOrderOK(F, base, mk, q)}, g \in InPermsRec(F, base, mk, Len(F.files))}
 Presentations(F) == PresentationsK(F, TLCEval(BaseDefs(F)), TLCEval(MustKeep(F)))
+\* (by construction every element is Admissible: PresentationsAdmissible is checked by the model)
+PresentationsAdmissible(F) == \A fs \in Presentations(F) : Admissible(F, fs)
 BasePresentation(F) == [k \in DOMAIN F.files |-> [syn |-> F.files[k].syn, src |-> k, defs |-> F.files[k].defs]]
 
 (* ------------------------------------------------------------------ *)
